@@ -7,6 +7,7 @@ import (
 	"encoding/json"
 	"fmt"
 	"os"
+	"os/exec"
 	"path/filepath"
 	"strings"
 	"sync/atomic"
@@ -92,6 +93,10 @@ func (c *totCase) render() (code string, decl bool, skip bool) {
 		return fmt.Sprintf("gg := %s\nzz := \"a{{gg}}b{{len(gg)}}\"", a(0)), false, false
 	case "mapitem":
 		return fmt.Sprintf("zz := {%s}", a(0)), false, false
+	case "mapkey": // any value as key of a map literal
+		return fmt.Sprintf("kk := %s\nzz := {kk : 1, %s : 2}", a(0), a(0)), false, false
+	case "mapaccesskey": // any value as key of a read and a write through brackets
+		return fmt.Sprintf("kk := %s\nmm := {\"a\" : 1}\nzz := mm[kk]\nmm[kk] := 2", a(0)), false, false
 	}
 	return "", false, true
 }
@@ -112,17 +117,17 @@ var c06Caught int64
 
 // runTotCase executes a case in the three settings.
 func runTotCase(c *totCase, withSink bool) {
-	code, decl, skip := c.render()
-	c.Src = code
 	c.InSink = "skipped"
 	c.Alive = true
+	if c.K == "eventstate" {
+		runEventStateCase(c)
+		return
+	}
+	code, decl, skip := c.render()
+	c.Src = code
 	if skip {
 		c.Plain, c.InTry = "value", "nocatch"
 		c.Exp = "any"
-		return
-	}
-	if c.K == "eventstate" {
-		runEventStateCase(c)
 		return
 	}
 	// plain
@@ -174,7 +179,16 @@ func runTotCase(c *totCase, withSink bool) {
 	pm, hung = guarded(5*time.Second, func() {
 		root := proc.NewRootMonitor(nil, nil)
 		proc.AddEventAndWait(engine.NewEvent("case", []string{"c", "case"}, map[interface{}]interface{}{}), root)
-		nerr = len(root.AllErrors())
+		all := root.AllErrors()
+		nerr = len(all)
+		// what a host does with the collected errors: read their text, encode them
+		for _, te := range all {
+			_ = te.Error()
+			for _, e := range te.ErrorMap {
+				_ = e.Error()
+				json.Marshal(e)
+			}
+		}
 	})
 	if pm != "" || hung != "" {
 		c.InSink, c.Detail = "fault", "sink invocation: "+pm+hung
@@ -191,12 +205,21 @@ func runTotCase(c *totCase, withSink bool) {
 
 // an event whose state holds the value, processed by a state-indexed sink
 func runEventStateCase(c *totCase) {
-	c.Src = "event state {\"k\" : " + lit(c.Args[0]) + "} for a sink with statematch {\"k\" : 1}"
+	c.Src = "event state {\"k\" : " + lit(c.Args[0]) + "} for sinks with statematch on k (a value, another value, null)"
 	env := newEcalEnv(2)
 	var err error
-	src := totSetup + "sink sstate\n    kindmatch [\"c.state\"],\n    statematch {\"k\" : 1},\n    {\n        zz := event.state.k\n    }\nres := addEventAndWait(\"ev\", \"c.state\", {\"k\" : " + lit(c.Args[0]) + ", \"other\" : " + lit(c.Args[0]) + "})\n"
+	decl := totSetup + "sink sstate\n    kindmatch [\"c.state\"],\n    statematch {\"k\" : 1},\n    {\n        zz := event.state.k\n    }\n" +
+		"sink sstate2\n    kindmatch [\"c.*\"],\n    statematch {\"k\" : \"abc\", \"other\" : null},\n    {\n        zz := 2\n    }\n" +
+		"sink sstate3\n    kindmatch [\"c.state\"],\n    statematch {\"k\" : null},\n    {\n        zz := 3\n    }\n"
+	// the sinks are declared while the processor is stopped, the event is added while it runs
+	if pm, hung := guarded(5*time.Second, func() { _, err = env.run(decl) }); pm != "" || hung != "" || err != nil {
+		c.Plain, c.Detail = classify(err, pm, hung)
+		c.InTry = map[bool]string{true: "caught", false: "fault"}[c.Plain == "error"]
+		return
+	}
 	env.erp.Processor.Start()
 	defer env.erp.Processor.ThreadPool().SetWorkerCount(0, false)
+	src := "res := addEventAndWait(\"ev\", \"c.state\", {\"k\" : " + lit(c.Args[0]) + ", \"other\" : " + lit(c.Args[0]) + "})\n"
 	pm, hung := guarded(5*time.Second, func() { _, err = env.run(src) })
 	c.Plain, c.Detail = classify(err, pm, hung)
 	c.InTry = map[bool]string{true: "caught", false: "nocatch"}[c.Plain == "error"]
@@ -287,4 +310,57 @@ func C06(r *ev.Run) {
 	}
 	r.AddTraces(int64(len(cases) - len(badRecs)))
 	r.Set("cases", len(cases))
+	runC06Isolated(r)
+}
+
+// ---- programs which may end the whole process: each runs in a process of its own ----------------------------
+
+func init() { childModes["c06iso"] = c06IsoChild }
+
+func c06IsoChild(args []string) {
+	verifhook.Set(func(string, ...interface{}) {})
+	env := newEcalEnv(1)
+	var err error
+	pm, hung := guarded(20*time.Second, func() { _, err = env.run(os.Getenv("VERIF_C06_SRC")) })
+	cl, d := classify(err, pm, hung)
+	fmt.Printf("ISO-RESULT %s %s\n", cl, headStr(d, 200))
+	os.Exit(0)
+}
+
+var c06IsoPrograms = []struct{ name, src string }{
+	{"log of a map which contains itself", "m := {\"a\" : 1}\nm.self := m\nlog(m)\n"},
+	{"interpolation of a list which contains itself", "l := [1, [2]]\nl[1][0] := l\nx := \"{{l}}\"\n"},
+	{"error detail holding a map which contains itself", "m := {}\nm.m := m\ntry {\n    raise(\"E\", \"d\", m)\n} except e {\n    x := \"{{e}}\"\n}\n"},
+	{"comparison and length of a map which contains itself", "m := {}\nm.m := m\nx := m == m\ny := len(m)\n"},
+	{"raise with a map which contains itself as detail", "m := {}\nm.m := m\ntry {\n    raise(\"E\", m)\n} except e {\n    x := 1\n}\n"},
+	{"dumpenv with a value which contains itself in scope", "m := {}\nm.m := m\nx := dumpenv()\n"},
+	{"built-ins on a list which contains itself", "l := [1]\nl[0] := l\na := len(l)\nb := add(l, 1)\nc := concat(l, [2])\nd := del(l, 0)\ne := type(l)\n"},
+	{"arithmetic and comparison errors naming a map which contains itself", "m := {}\nm.m := m\ntry {\n    x := m + 1\n} except e {\n    y := e.detail\n}\ntry {\n    z := m > 1\n} except e {\n    y := e.error\n}\n"},
+	{"event state which contains itself", "m := {}\nm.m := m\nsink s1\n    kindmatch [\"a.b\"],\n    {\n        x := 1\n    }\nr := addEvent(\"e\", \"a.b\", m)\n"},
+	{"very deep nesting", "l := []\nfor i in range(1, 20000) {\n    l := [l]\n}\nlog(len(l))\n"},
+}
+
+// runC06Isolated runs the programs above; a dead child is a violation (the property: no ECAL program can crash the host).
+func runC06Isolated(r *ev.Run) {
+	self, err := os.Executable()
+	if err != nil {
+		return
+	}
+	for _, p := range c06IsoPrograms {
+		cmd := exec.Command(self, "C06")
+		cmd.Env = append(os.Environ(), "VERIF_CHILD=c06iso", "VERIF_C06_SRC="+p.src)
+		b, _ := cmd.CombinedOutput()
+		out := string(b)
+		r.Case("isolated:"+p.name, true)
+		switch {
+		case strings.Contains(out, "ISO-RESULT fault"):
+			r.Violation("C06 fault: "+p.name, firstLineWith(out, "ISO-RESULT"), map[string]string{"program": p.src})
+		case strings.Contains(out, "ISO-RESULT"):
+		case crashLine(out) != "":
+			sig := "C06 process death: " + p.name
+			r.Violation(sig, "the process which ran the program died: "+crashLine(out), map[string]string{"program": p.src, "output_head": headStr(out, 1500)})
+		default:
+			r.Inconclusive("isolated program gave no result: " + headStr(out, 300))
+		}
+	}
 }
